@@ -550,12 +550,20 @@ func runDagCase(c *DagCase, d *Driver) *DagResult {
 	r.data = make([]int64, maxID+2)
 	dag.Logger.SetOutput(ioutil.Discard)
 	tasks := map[string]*dag.Task{}
-	mk := func(t TRef, gno int) *dag.Task {
+	// A "fresh" reference is a new *Task object with the same ID - but the same object in every graph
+	// built from the history (keyed by its position in the history), so that graphs sharing their tasks
+	// share the redefined ones as well.
+	mk := func(t TRef, opKey string) *dag.Task {
 		if t.Nil {
 			return nil
 		}
 		key := fmt.Sprintf("%d/%v", t.ID, t.NoFn)
-		if tk, ok := tasks[key]; ok && !t.Fresh {
+		if t.Fresh {
+			if tk, ok := tasks["fresh/"+opKey]; ok {
+				tasks[key] = tk
+				return tk
+			}
+		} else if tk, ok := tasks[key]; ok {
 			return tk
 		}
 		id := ""
@@ -587,6 +595,9 @@ func runDagCase(c *DagCase, d *Driver) *DagResult {
 		}
 		tk := dag.NewTask(id, fn)
 		tasks[key] = tk
+		if t.Fresh {
+			tasks["fresh/"+opKey] = tk
+		}
 		return tk
 	}
 	build := func(name string) *dag.Graph {
@@ -595,15 +606,15 @@ func runDagCase(c *DagCase, d *Driver) *DagResult {
 		for opIdx, op := range c.Ops {
 			switch op.Op {
 			case "add":
-				g.AddTask(mk(op.T, 0))
+				g.AddTask(mk(op.T, fmt.Sprintf("%d.t", opIdx)))
 			case "dep":
 				deps := []*dag.Task{}
-				for _, dd := range op.Deps {
-					deps = append(deps, mk(dd, 0))
+				for j, dd := range op.Deps {
+					deps = append(deps, mk(dd, fmt.Sprintf("%d.d%d", opIdx, j)))
 				}
-				g.TaskDependsOn(mk(op.T, 0), deps...)
+				g.TaskDependsOn(mk(op.T, fmt.Sprintf("%d.t", opIdx)), deps...)
 			case "retries":
-				g.TaskRetries(mk(op.T, 0), op.N)
+				g.TaskRetries(mk(op.T, fmt.Sprintf("%d.t", opIdx)), op.N)
 			case "sort":
 				// DepthFirstSort in the middle of the construction: checked against the calls made so far
 				pre := intendedGraph(c.Ops[:opIdx])
@@ -1330,6 +1341,17 @@ func genDagCase(r *rand.Rand, id int, prop string) *DagCase {
 		c.CancelAt = r.Intn(n + 1)
 	}
 	c.Shared = r.Intn(8) == 0 && !messy && !cyclic
+	readd := func() {
+		// a task redefined with a new *Task object (same ID) somewhere in the history: the graphs
+		// sharing their tasks share the redefined object too
+		if c.Shared && r.Intn(2) == 0 {
+			for k := 0; k < 1+r.Intn(2); k++ {
+				pos := r.Intn(len(c.Ops) + 1)
+				op := DagOp{Op: "add", T: TRef{ID: 1 + r.Intn(n), Fresh: true}}
+				c.Ops = append(c.Ops[:pos], append([]DagOp{op}, c.Ops[pos:]...)...)
+			}
+		}
+	}
 	switch prop {
 	case "C15":
 		if c.Max == 0 && !c.Serial {
@@ -1337,6 +1359,7 @@ func genDagCase(r *rand.Rand, id int, prop string) *DagCase {
 		}
 		c.Buffer = r.Intn(2) == 0
 		c.Shared = r.Intn(3) == 0 && !messy && !cyclic
+		readd()
 	case "C14":
 		if r.Intn(3) == 0 {
 			c.CancelAt = r.Intn(n + 1)
